@@ -5,28 +5,35 @@ package main
 
 import (
 	"fmt"
+	"go/token"
 	"go/types"
 
 	"golang.org/x/tools/go/ssa"
 )
 
 type clientAnchors struct {
-	short    string // nclient4 | nclient6
-	pkg      *ssa.Package
-	decPkg   string // dhcpv4 | dhcpv6 import path
-	decName  string // FromBytes | MessageFromBytes
-	client   *types.Named
-	ctor     *ssa.Function // function that allocates Client (and, directly or through one callee, starts the loop)
-	goIns    *ssa.Go       // the go statement starting the receive loop
-	recvLoop *ssa.Function // function run by that goroutine
-	send     *ssa.Function // Client method that registers the transaction (only MapUpdate on pending)
-	cancel   *ssa.Function // closure returned by send
-	sar      *ssa.Function // SendAndRead
-	try      *ssa.Function // closure passed to the retry driver
-	retry    *ssa.Function // retry driver
-	closeFn  *ssa.Function // Close
-	sendCall *ssa.Call     // call of send inside try
-	errs     []string
+	short     string // nclient4 | nclient6
+	pkg       *ssa.Package
+	decPkg    string // dhcpv4 | dhcpv6 import path
+	decName   string // FromBytes | MessageFromBytes
+	client    *types.Named
+	ctor      *ssa.Function // function that allocates Client (and, directly or through one callee, starts the loop)
+	goIns     *ssa.Go       // the go statement starting the receive loop
+	recvLoop  *ssa.Function // function run by that goroutine
+	send      *ssa.Function // Client method that registers the transaction (only MapUpdate on pending)
+	cancel    *ssa.Function // closure returned by send
+	sar       *ssa.Function // SendAndRead
+	try       *ssa.Function // closure passed to the retry driver
+	retry     *ssa.Function // retry driver
+	closeFn   *ssa.Function // Close
+	sendCall  *ssa.Call     // call of send inside try
+	errs      []string
+	prog      *Prog
+	entryBusy map[*ssa.Function]bool
+	// deliverFn: the function holding the delivering select when it is not the receive loop itself
+	// (an unexported helper called from the loop with the message and the entry), and its call site
+	deliverFn   *ssa.Function
+	deliverCall *ssa.Call
 }
 
 func (a *clientAnchors) fail(f string, args ...interface{}) {
@@ -81,7 +88,7 @@ func hasReadFromInCycle(f *ssa.Function) *ssa.Call {
 }
 
 func resolveClientAnchors(c *Ctx, short string) *clientAnchors {
-	a := &clientAnchors{short: short}
+	a := &clientAnchors{short: short, prog: c.P}
 	var path string
 	if short == "nclient4" {
 		path, a.decPkg, a.decName = modPath+"/dhcpv4/nclient4", modPath+"/dhcpv4", "FromBytes"
@@ -254,6 +261,46 @@ func (a *clientAnchors) isMuCall(in ssa.Instruction, name string) bool {
 	return a.isClientFieldAddr(cc.Args[0], "pendingMu")
 }
 
+// entryLock: (must, may) hold of pendingMu on entry to fn, from its call sites in the package
+func (a *clientAnchors) entryLock(fn *ssa.Function) (bool, bool) {
+	if a.entryBusy == nil {
+		a.entryBusy = map[*ssa.Function]bool{}
+	}
+	if fn.Parent() != nil || token.IsExported(fn.Name()) || a.entryBusy[fn] || hasNonCallRef(fn) || a.prog == nil {
+		return false, false
+	}
+	a.entryBusy[fn] = true
+	defer delete(a.entryBusy, fn)
+	n, must, may := 0, true, false
+	for _, g := range a.pkgFuncs(a.prog) {
+		if g == fn {
+			continue
+		}
+		var li *lockInfo
+		allInstrs(g, func(in ssa.Instruction) {
+			ci, ok := in.(ssa.CallInstruction)
+			if !ok || ci.Common().StaticCallee() != fn {
+				return
+			}
+			if _, isGo := in.(*ssa.Go); isGo {
+				must = false
+				n++
+				return
+			}
+			if li == nil {
+				li = a.lockFlow(g)
+			}
+			n++
+			must = must && li.must[in]
+			may = may || li.may[in]
+		})
+	}
+	if n == 0 {
+		return false, false
+	}
+	return must, may || must
+}
+
 func (a *clientAnchors) lockFlow(fn *ssa.Function) *lockInfo {
 	li := &lockInfo{must: map[ssa.Instruction]bool{}, may: map[ssa.Instruction]bool{}, exitMay: map[*ssa.BasicBlock]bool{}}
 	type st struct{ must, may bool }
@@ -266,7 +313,10 @@ func (a *clientAnchors) lockFlow(fn *ssa.Function) *lockInfo {
 	if len(fn.Blocks) == 0 {
 		return li
 	}
-	in[fn.Blocks[0]] = st{false, false}
+	// entry state: an unexported function of the package that is only ever called (statically) with the lock
+	// held starts with the lock held ("c.pendingMu must be held by the caller" helpers)
+	em, ey := a.entryLock(fn)
+	in[fn.Blocks[0]] = st{em, ey}
 	for changed := true; changed; {
 		changed = false
 		for _, b := range fn.Blocks {
